@@ -190,5 +190,22 @@ func witnessDesigns() []DCase {
 		d.Schemes = []dg.Scheme{{Kind: "apikey", Name: "ka"}, {Kind: "apikey", Name: "kb"}}
 		add("two-schemes-same-kind", d)
 	}
+	// one error name declared with two different types by two methods of a service
+	{
+		t1 := dg.Obj(dg.Req("name", dg.Prim("String")), dg.F("x", dg.Prim("Int")))
+		t2 := dg.Obj(dg.Req("name", dg.Prim("String")), dg.F("x", dg.Prim("Boolean")))
+		add("error-name-reused-with-different-type", svc1("w_error_name_two_types",
+			&dg.Method{Name: "m1", Errors: []dg.ErrorDef{{Name: "bad", T: &t1}}, HTTP: &dg.HTTPMap{Routes: rt("GET", "/1"), Errors: []dg.ErrResponse{{Name: "bad", R: dg.Response{Status: 400, Headers: []dg.MapEntry{{Attr: "x", Wire: "X-E"}}}}}}},
+			&dg.Method{Name: "m2", Errors: []dg.ErrorDef{{Name: "bad", T: &t2}}, HTTP: &dg.HTTPMap{Routes: rt("GET", "/2"), Errors: []dg.ErrResponse{{Name: "bad", R: dg.Response{Status: 400, Headers: []dg.MapEntry{{Attr: "x", Wire: "X-E"}}}}}}}))
+	}
+	// two methods of one service with a collection as HTTP request body, the second a collection of a user type:
+	// the client refers to a constructor that is not generated (each method alone builds)
+	{
+		d := svc1("w_user_collection_body_two_methods",
+			&dg.Method{Name: "m1", Payload: pa(dg.A(dg.Obj(dg.F("x", dg.ArrayOf(dg.A(dg.Prim("Any"))))))), HTTP: &dg.HTTPMap{Routes: rt("POST", "/1"), Body: &dg.BodySpec{Attr: "x"}}},
+			&dg.Method{Name: "m2", Payload: pa(dg.A(dg.Obj(dg.F("x", dg.ArrayOf(dg.A(dg.Ref("UObj"))))))), HTTP: &dg.HTTPMap{Routes: rt("POST", "/2"), Body: &dg.BodySpec{Attr: "x"}}})
+		d.Types = []*dg.UserType{{Name: "UObj", Base: dg.Obj(dg.F("a", dg.Prim("String")), dg.F("b", dg.Prim("Int")))}}
+		add("collection-of-user-type-body-helper", d)
+	}
 	return out
 }
